@@ -125,8 +125,8 @@ func ruleBounds(c *Ctx, r *Report) {
 		f := strings.TrimPrefix(s.pos.Filename, c.Repo+"/")
 		fnName := strings.ReplaceAll(strings.ReplaceAll(s.fn, modPath+"/", ""), modPath+".", "dtls.")
 		shape := siteShape(s.ins)
-		k := fnName + "|" + s.what + "|" + shape + "|" + s.goal
-		if rv, ok := reviewed[k]; ok {
+		k := fnName + "|" + s.what + "|" + shape
+		if rv, ok := coveredBy(reviewed[k], s.goal); ok {
 			nReviewed++
 			used[k] = true
 			r.OKTrivial("bounds-reviewed", fmt.Sprintf("%s:%s", fnName, s.what), fmt.Sprintf("%s:%d", f, s.pos.Line), rv.Verdict+": "+rv.Reason)
@@ -157,7 +157,28 @@ type reviewedSite struct {
 	Reason   string `json:"reason"`
 }
 
-func loadReviewed(verif string) (map[string]reviewedSite, error) {
+// coveredBy: a reviewed entry covers the site when every unproven sub-goal of the site is among
+// the sub-goals the review covered (a subset is fine: another platform may prove more).
+func coveredBy(entries []reviewedSite, goal string) (reviewedSite, bool) {
+	for _, e := range entries {
+		cov := map[string]bool{}
+		for _, g := range strings.Split(e.Unproven, ",") {
+			cov[g] = true
+		}
+		ok := true
+		for _, g := range strings.Split(goal, ",") {
+			if g != "" && !cov[g] {
+				ok = false
+			}
+		}
+		if ok {
+			return e, true
+		}
+	}
+	return reviewedSite{}, false
+}
+
+func loadReviewed(verif string) (map[string][]reviewedSite, error) {
 	b, err := os.ReadFile(filepath.Join(verif, "spec", "reviewed_safe.json"))
 	if err != nil {
 		return nil, err
@@ -168,9 +189,10 @@ func loadReviewed(verif string) (map[string]reviewedSite, error) {
 	if err := json.Unmarshal(b, &t); err != nil {
 		return nil, err
 	}
-	out := map[string]reviewedSite{}
+	out := map[string][]reviewedSite{}
 	for _, s := range t.Sites {
-		out[s.Function+"|"+s.Kind+"|"+s.Shape+"|"+s.Unproven] = s
+		k := s.Function + "|" + s.Kind + "|" + s.Shape
+		out[k] = append(out[k], s)
 	}
 	return out, nil
 }
